@@ -54,16 +54,22 @@ EXPLANATION = ("Theorems over ALL reachable states of a line-level model of Conn
                "every packet's pieces adjacent on the wire; all returned => queue empty, lock free, wire = every appended "
                "message once; no line ever blocks or raises and the innermost activation can always step (no deadlock).")
 
+MAX_STEPS = 1500    # no configuration used here needs a tenth of this many steps
 CHUNK = 64          # MAX_IO_CHUNK of the recording stream: frames above it take three writes
 PAD_BIG = 80
 
 
 # ---------------------------------------------------------------------------------------------- real objects
+_PARTS = []
+
+
 def rpyc_parts():
-    from rpyc.core.protocol import Connection
-    from rpyc.core.channel import Channel
-    from rpyc.core import brine, consts
-    return Connection, Channel, brine, consts
+    if not _PARTS:
+        from rpyc.core.protocol import Connection
+        from rpyc.core.channel import Channel
+        from rpyc.core import brine, consts
+        _PARTS.append((Connection, Channel, brine, consts))
+    return _PARTS[0]
 
 
 class ScratchStream:
@@ -109,7 +115,7 @@ class RecStream:
         self.run = run
 
     def write(self, data):
-        self.run.sched.before_action("stream.write")
+        self.run.sched.before_action("_channel")
         self.run.on_write(bytes(data))
 
     def close(self):
@@ -124,24 +130,24 @@ class RecQueue(list):
         return self
 
     def append(self, x):
-        self.run.sched.before_action("queue.append")
+        self.run.sched.before_action("_send_queue")
         list.append(self, x)
         self.run.log("a", self.run.ident(x))
 
     def __bool__(self):
-        self.run.sched.before_action("queue.test")
+        self.run.sched.before_action("_send_queue")
         r = list.__len__(self) > 0
         self.run.log("c", int(r))
         return r
 
     def __len__(self):
-        self.run.sched.before_action("queue.test")
+        self.run.sched.before_action("_send_queue")
         n = list.__len__(self)
         self.run.log("c", int(n > 0))
         return n
 
     def pop(self, *idx):
-        self.run.sched.before_action("queue.pop")
+        self.run.sched.before_action("_send_queue")
         try:
             x = list.pop(self, *idx)
         except IndexError:
@@ -149,6 +155,42 @@ class RecQueue(list):
             raise
         self.run.log("p", self.run.ident(x))
         return x
+
+
+_WIRE_FORM = {}
+
+
+def wire_form(mid, big):
+    """(payload, the datum `_send` queues, the chunks the real Channel.send writes for it) — cached per code"""
+    _Connection, Channel, brine, consts = rpyc_parts()
+    key = (mid, big, Channel.send.__code__, brine.dump.__code__)
+    if key not in _WIRE_FORM:
+        payload = bytes(PAD_BIG) if big else b""
+        data = brine.dump((consts.MSG_REQUEST, mid, payload))
+        st = ScratchStream()
+        Channel(st).send(data)
+        _WIRE_FORM[key] = (payload, data, st.chunks)
+    return _WIRE_FORM[key]
+
+
+_LOCK_KIND = {}
+
+
+def real_lock_is_reentrant():
+    """which kind of lock the connection's constructor installs as `_sendlock` (the substitute mirrors it)"""
+    Connection, Channel, _brine, _consts = rpyc_parts()
+    key = Connection.__init__.__code__
+    if key not in _LOCK_KIND:
+        import threading
+        try:
+            from rpyc.core.service import VoidService
+            conn = Connection(VoidService(), Channel(ScratchStream()))
+            lock = conn._sendlock
+            conn._closed = True
+            _LOCK_KIND[key] = (type(lock) is type(threading.RLock()), type(lock).__name__)
+        except Exception as ex:  # noqa - cannot tell: assume the documented plain lock
+            _LOCK_KIND[key] = (False, "unknown (%s)" % type(ex).__name__)
+    return _LOCK_KIND[key]
 
 
 class Run:
@@ -162,7 +204,7 @@ class Run:
         self.progs = [list(p) for p in progs]
         self.reent = list(reent)
         self.msg_kind = consts.MSG_REQUEST
-        self.sched = S.Scheduler(targets=[Connection._send.__code__])
+        self.sched = S.Scheduler(targets=[Connection._send.__code__], skip=skip_line)
         self.actions = []                 # tokens, in the order the real code acted
         self.raw = bytearray()            # every byte handed to the stream
         self.n_os = len(self.progs)
@@ -180,19 +222,15 @@ class Run:
         self.payload, self.data_of, self.pieces, self.id_of_data = {}, {}, {}, {}
         allmsgs = [m for p in self.progs for m in p] + [m for (_t, _k, _w, m) in self.reent]
         for mid, big in allmsgs:
-            self.payload[mid] = bytes(PAD_BIG) if big else b""
-            data = brine.dump((self.msg_kind, mid, self.payload[mid]))
-            st = ScratchStream()
-            Channel(st).send(data)
-            self.data_of[mid] = data
-            self.pieces[mid] = st.chunks
-            self.id_of_data[data] = mid
+            self.payload[mid], self.data_of[mid], self.pieces[mid] = wire_form(mid, big)
+            self.id_of_data[self.data_of[mid]] = mid
         self.big = dict((mid, len(self.pieces[mid]) == 3) for mid, _ in allmsgs)
         self.inexpressible = [mid for mid, _ in allmsgs if len(self.pieces[mid]) not in (1, 3)]
         conn = Connection.__new__(Connection)
         conn._closed = True               # so that __del__ / close() are no-ops
         conn._send_queue = RecQueue().bind(self)
-        conn._sendlock = S.SchedLock(self.sched, on_event=self.on_lock, name="sendlock")
+        conn._sendlock = S.SchedLock(self.sched, on_event=self.on_lock, name="_sendlock",
+                                     reentrant=real_lock_is_reentrant()[0])
         conn._channel = Channel(RecStream(self))
         self.conn = conn
         for t in range(self.n_os):
@@ -267,7 +305,8 @@ class Run:
                     self.call_send(os_t, msg[0], swallow=True)
                 finally:
                     self.lstack[os_t].pop()
-                self.sched.yield_point("after-nested-send")
+                self.sched.yield_point("_channel")
+                self.sched.touch("_channel")
 
     def call_send(self, os_t, mid, swallow=False):
         self.call_order[os_t].append(mid)
@@ -336,8 +375,8 @@ class Run:
             if mine != prog[:len(mine)]:
                 order = False
         show = lambda l: ",".join(str(i) for i in l) or "-"
-        return "accept stuck=%s done=%s q=%s lock=%s hand=%s wire=%s order=%s threads=%d" % (
-            "T" if result.deadlock else "F", "T" if done else "F", show(q),
+        return "accept%s stuck=%s done=%s q=%s lock=%s hand=%s wire=%s order=%s threads=%d" % (
+            " step-limit" if result.truncated else "", "T" if result.deadlock else "F", "T" if done else "F", show(q),
             "T" if self.conn._sendlock.locked() else "F", hand, show(ids), "T" if order else "F", self.next_lt)
 
     def close(self):
@@ -345,38 +384,74 @@ class Run:
 
 
 # ---------------------------------------------------------------------------------------------- local lines
-_LOCAL_CACHE = {}
+_LINES_CACHE = {}
 
 
-def local_lines():
-    """absolute line numbers of `Connection._send` whose statement does not mention `self` at all: executing
-    such a line cannot touch the connection, so it commutes with every step of every other thread"""
+def line_access():
+    """{absolute line number of `Connection._send`: access set of that line}, by AST, nothing hard-coded.
+    A line that does not mention `self` touches nothing shared (empty set): it commutes with every step of
+    every other thread and is not a scheduling point.  `self.<attr>` used only as a truth value (`while`/`if`
+    test, `not`, `len()`) reads the shared object <attr>; any other use may write it.  A bare `self`, or
+    anything we do not understand, is `None` (dependent on everything)."""
     Connection = rpyc_parts()[0]
     code = Connection._send.__code__
-    if code in _LOCAL_CACHE:
-        return _LOCAL_CACHE[code]
+    if code in _LINES_CACHE:
+        return _LINES_CACHE[code]
     lines, first = inspect.getsourcelines(Connection._send)
     tree = ast.parse(textwrap.dedent("".join(lines)))
     fn = tree.body[0]
     self_name = fn.args.args[0].arg if fn.args.args else "self"
-    shared = set()
+    parent = {}
+    for node in ast.walk(fn):
+        for ch in ast.iter_child_nodes(node):
+            parent[ch] = node
+    acc = dict((ln, frozenset()) for ln in range(first, first + len(lines)))
+
+    def add(node, item):
+        for ln in range(node.lineno, (getattr(node, "end_lineno", None) or node.lineno) + 1):
+            a = acc.get(ln + first - 1, frozenset())
+            acc[ln + first - 1] = None if (item is None or a is None) else a | frozenset([item])
+
+    def is_read(attr):
+        p = parent.get(attr)
+        while isinstance(p, ast.UnaryOp) and isinstance(p.op, ast.Not):
+            attr, p = p, parent.get(p)
+        if isinstance(p, (ast.While, ast.If, ast.IfExp)) and p.test is attr:
+            return True
+        if isinstance(p, ast.BoolOp):
+            return True
+        if isinstance(p, ast.Call) and isinstance(p.func, ast.Name) and p.func.id in ("len", "bool") and attr in p.args:
+            return True
+        return False
+
     for node in ast.walk(fn):
         if isinstance(node, ast.Name) and node.id == self_name:
-            for ln in range(node.lineno, (getattr(node, "end_lineno", None) or node.lineno) + 1):
-                shared.add(ln + first - 1)
-        if isinstance(node, (ast.Global, ast.Nonlocal, ast.With, ast.AsyncWith, ast.Yield, ast.YieldFrom, ast.Await)):
-            for ln in range(node.lineno, (getattr(node, "end_lineno", None) or node.lineno) + 1):
-                shared.add(ln + first - 1)
-    allbody = set(range(first, first + len(lines)))
-    _LOCAL_CACHE[code] = allbody - shared
-    return _LOCAL_CACHE[code]
+            p = parent.get(node)
+            if isinstance(p, ast.Attribute) and p.value is node:
+                add(p, (p.attr, "r" if is_read(p) else "w"))
+            else:
+                add(node, None)
+        elif isinstance(node, (ast.Global, ast.Nonlocal, ast.With, ast.AsyncWith, ast.Yield, ast.YieldFrom, ast.Await)):
+            add(node, None)
+    _LINES_CACHE[code] = acc
+    return acc
 
 
-def is_local(run, tid):
+def skip_line(code, lineno):
+    a = line_access().get(lineno, None)
+    return a is not None and len(a) == 0
+
+
+def access(run, tid):
+    """what the next step of parked thread `tid` may touch (see sched.dfs)"""
     st = run.sched.where(tid)
     if st[0] == "start":
-        return True
-    return st[0] == "line" and st[1] == "_send" and st[2] in local_lines()
+        return frozenset()
+    if st[0] == "line":
+        return line_access().get(st[2], None) if st[1] == "_send" else None
+    if st[0] in ("yield", "blocked"):
+        return frozenset([(st[1].split(".")[0], "w")])
+    return None
 
 
 # ---------------------------------------------------------------------------------------------- configurations
@@ -510,7 +585,7 @@ def explore_dfs(batch, family, conf, bound=None, max_runs=None, deadline=None):
     """returns (number of schedules, completed?)"""
     n = 0
     complete = True
-    gen = S.dfs(lambda: new_run(conf), is_local=is_local, preemption_bound=bound, max_runs=max_runs)
+    gen = S.dfs(lambda: new_run(conf), access=access, preemption_bound=bound, max_runs=max_runs, max_steps=MAX_STEPS)
     for run, res in gen:
         try:
             batch.add(family, conf, run, res)
@@ -530,33 +605,39 @@ def run_one(conf, schedule=None, rng=None, stickiness=0):
     run = new_run(conf)
     try:
         if schedule is not None:
-            res = S.run_fixed(run.sched, schedule)
+            res = S.run_fixed(run.sched, schedule, max_steps=MAX_STEPS)
         else:
-            res = S.run_random(run.sched, rng, stickiness)
+            res = S.run_random(run.sched, rng, stickiness, max_steps=MAX_STEPS)
     except BaseException:
         run.close()
         raise
     return run, res
 
 
-def check_por():
-    """the steps the reduction treats as thread-local really perform no shared action (one serial run)"""
-    conf = cfg([[(1, True)], [(2, False)]], [(1, 1, "b", (9, False))])
-    run = new_run(conf)
-    bad = 0
-    try:
-        sc = run.sched
-        while not sc.all_finished():
-            en = sc.enabled()
-            if not en:
-                break
-            t = en[0]
-            loc = is_local(run, t)
-            sc.step(t)
-            if loc and sc.last_step_actions:
-                bad += 1
-    finally:
-        run.close()
+def check_por(n=40):
+    """every step touches only the shared objects the reduction was told it may touch (random runs incl. a
+    three-write packet and nested sends); returns the number of steps that touched something undeclared"""
+    bad = []
+    r = Rng(7)
+    for i in range(n):
+        conf = cfg([[(1, True), (3, False)], [(2, False)]], [(1, i % 3, "ba"[i % 2], (9, False)), (9, 0, "a", (8, False))])
+        run = new_run(conf)
+        declared = {}
+
+        def choose(en, run=run, declared=declared):
+            last = run.sched.last
+            if last is not None and last[0] in declared:
+                d = declared.pop(last[0])
+                objs = None if d is None else set(o for o, _m in d)
+                if objs is not None and not set(l.split(".")[0] for l in last[2]) <= objs:
+                    bad.append((run.sched.where(last[0]), last[2], sorted(objs)))
+            t = en[r.below(len(en))]
+            declared[t] = access(run, t)
+            return t
+        try:
+            run.sched.run(choose)
+        finally:
+            run.close()
     return bad
 
 
@@ -574,9 +655,10 @@ def correspondence(ctx):
     t0 = time.time()
     bad = check_por()
     if bad:
-        c.error = "partial-order reduction unsound here: %d step(s) classified thread-local performed a shared action" % bad
+        c.error = "partial-order reduction unsound here: %d step(s) touched a shared object the AST analysis did not declare, e.g. %r" % (len(bad), bad[0])
         return c
-    c.extra["thread_local_lines_of__send"] = sorted(local_lines())
+    c.extra["line_access_of__send"] = dict((str(k), sorted(map(list, v)) if v is not None else None)
+                                           for k, v in sorted(line_access().items()) if v is None or v)
     batch = Batch(c, ctx)
     exhaustive_done = {}
     fams = quick_exhaustive() + (thorough_exhaustive() if ctx.tier == "thorough" else [])
@@ -607,6 +689,7 @@ def correspondence(ctx):
             break
     batch.flush()
     ctx.log("random schedules: %d (%.1fs)" % (done_rand, time.time() - t_rand))
+    c.extra["sendlock_type_installed_by_constructor"] = real_lock_is_reentrant()[1]
     c.extra["exhaustive_families"] = exhaustive_done
     c.extra["preemption_bounded_families"] = bounded
     c.extra["random_schedules"] = done_rand
@@ -625,6 +708,9 @@ def oracle(run, res):
     if sc.errors():
         t, ex = sorted(sc.errors().items())[0]
         return "thread %d raised %s" % (t, type(ex).__name__), "sender-raised:" + type(ex).__name__
+    if res.truncated:
+        return ("senders still running after %d steps (no configuration needs more than a few hundred)"
+                % len(res.schedule), "livelock")
     if res.deadlock:
         blocked = [t for t in sc.order if not sc.finished(t)]
         return ("deadlock: thread(s) %s have not returned and no thread can run (%s)"
@@ -689,7 +775,7 @@ def oracle_search(ctx, corr, broken):
             return report(conf, schedule, v, actions)
     # 2. boundary corpus: every interleaving of the small configurations
     for name, conf in quick_exhaustive():
-        for run, res in S.dfs(lambda: new_run(conf), is_local=is_local):
+        for run, res in S.dfs(lambda: new_run(conf), access=access, max_steps=MAX_STEPS):
             try:
                 v = oracle(run, res)
                 schedule, actions = list(res.schedule), list(run.actions)
